@@ -146,7 +146,7 @@ def generate(streams, tier):
     states2 = [W.gen_states(rt, world["card"][v], smode) for v in range(n)]
     if smode == "default":
         perms = [list(range(world["card"][v])) for v in range(n)]  # default names are positional: no reordering possible
-    twin = {"labels": labels2, "states": states2, "perms": perms, "backend": rt.choice(["numpy", "numpy", "torch"]),
+    twin = {"labels": labels2, "states": states2, "perms": perms, "backend": rt.choice(["numpy", "numpy", "torch", "torch", "numpy:float32", "torch:float32"]),
             "config": W.gen_bn_config(streams.child("twin"), world)}
     rw = streams.s("workload")
     ref = RefJoint.from_bn(world)
@@ -187,14 +187,15 @@ def canon_answer(res, names, q, joint=True):
     return {"joint": arr}
 
 
-def same_answer(a, b):
+def same_answer(a, b, single=False):
+    """single: one side computed in float32 (about 7 significant digits per operation)."""
     if type(a) is not type(b):
         return False
     if isinstance(a, dict):
         if sorted(a) != sorted(b):
             return False
-        return all(same_answer(a[k], b[k]) for k in a)
-    return close(a, b, atol=1e-8, rtol=1e-6)
+        return all(same_answer(a[k], b[k], single) for k in a)
+    return close(a, b, atol=1e-5, rtol=1e-3) if single else close(a, b, atol=1e-8, rtol=1e-6)
 
 
 def execute_history(case, ctx):
@@ -706,8 +707,10 @@ def execute_twin(case, ctx):
     ref = RefJoint.from_bn(world)
     ctx.fault("twin_config")
     ctx.fault("relabel")
-    if twin["backend"] == "torch":
+    if twin["backend"] != "numpy":
         ctx.fault("backend_config")
+    if twin["backend"].endswith("float32"):
+        ctx.probe("dtype_float32")
     rows = case["rows"]
     rowsB = [[inv[v][r[v]] for v in range(n)] for r in rows]
 
@@ -757,7 +760,7 @@ def execute_twin(case, ctx):
                 seams.set_backend("numpy")
         ctx.event(k, q, sorted(ev.items()), sorted(errors))
         ctx.checked += 1
-        tag = f"{k}:{'torch' if twin['backend'] == 'torch' else 'numpy'}"
+        tag = f"{k}:{twin['backend']}"
         bad = None
         if errors:
             if len(errors) == 1:
@@ -770,7 +773,7 @@ def execute_twin(case, ctx):
             a, b = answers["A"], answers["B"]
             if a is None or b is None:
                 continue
-            if not same_answer(a, b):
+            if not same_answer(a, b, single=backend_op and twin["backend"].endswith("float32")):
                 bad = ("twin_differs:" + tag, {"A": _short(a) if isinstance(a, dict) else a, "B": _short(b) if isinstance(b, dict) else b,
                                                "backend": twin["backend"], "twin_labels": twin["labels"]})
         if bad is None:
